@@ -8,6 +8,7 @@ R8.2 each child once, error first: exactly one recursive call site, inside the l
 R8.3 no short-circuit: the operator is not read before the loop's exit edge; Operator::eval[_mut] is called once, after the loop,
      with all collected arguments (pushed in iteration order) and the same context;
 R8.4 op-assign order inside eval_mut: read X, compute, write X; a failing step prevents the later ones (the C04 R4.4 case analysis);
+R8.7 every typed / string-level entry point reaches the root evaluator exactly once per path (shared with C12);
 R8.5 Context::call_function is invoked once per FunctionIdentifier evaluation with arguments[0] - shared with C09 R9.1;
      effects persist: the mutable path neither clones nor restores the context.
 R8.6 operator application is strict in both operands (no value-level short-circuit): for every binary operator other than
@@ -37,6 +38,68 @@ def run(ctx):
     r84(ctx, prog)
     r85(ctx, prog)
     r86(ctx, prog)
+    r87(ctx, prog)
+
+
+class _BaseCallOnly:
+    """forwards, under rule R8.7, only those reports of the C12 entry-point analysis that say how often the root evaluator is reached"""
+    def __init__(self, ctx):
+        self._ctx = ctx
+        self.n = 0
+
+    def __getattr__(self, n):
+        return getattr(self._ctx, n)
+
+    def _mine(self, code):
+        return code == 'base-call' or str(code).startswith('value-dependent')
+
+    def violation(self, rule, inst, code, *a, **k):
+        if self._mine(code):
+            return self._ctx.violation('R8.7', inst, code, *a, **k)
+
+    def unrecognised(self, rule, inst, code, *a, **k):
+        return self._ctx.unrecognised('R8.7', inst, code, *a, **k)
+
+    def check(self, cond, rule, inst, code, *a, **k):
+        if self._mine(code):
+            return self._ctx.check(cond, 'R8.7', inst, code, *a, **k)
+
+    def ok(self, rule, inst, *a, **k):
+        self.n += 1
+
+    def floor(self, *a, **k):
+        pass
+
+    def sample(self, *a, **k):
+        pass
+
+
+def r87(ctx, prog):
+    """every node is evaluated exactly once also through the typed and the string-level entry points: each of them reaches the root
+    evaluator exactly once on every path (the C12 entry-point analysis, of which only this part is reported here) - a wrapper that
+    evaluates, looks at the result and evaluates again repeats every side effect of the expression"""
+    from rules import c12
+    w = _BaseCallOnly(ctx)
+    worlds = c12.value_worlds(prog)
+    n = 0
+    for f in prog.fns:
+        if f.kind not in ('Fn', 'AssocFn') or not f.name:
+            continue
+        m = c12.NAME_RE.match(f.name)
+        if not m:
+            continue
+        g = 'interface' if f.path.startswith('interface::') else ('node' if path_endswith(c12.short(f.path), 'tree::Node::' + f.name) else None)
+        if g is None:
+            continue
+        ty, mut = m.group(1), m.group(2)
+        has_ctx = '_with_context' in f.name
+        if ty is None and has_ctx and g == 'node':
+            continue
+        n += 1
+        c12.entry(w, prog, f, g, ty, bool(mut), has_ctx, worlds)
+    ctx.floor('R8.7', 'entry_points', n, 40)
+    if w.n:
+        ctx.ok('R8.7', 'entry-points:evaluate-once', '%d entry point cases reach the root evaluator exactly once' % w.n)
 
 
 def evaluator_collect(ctx, prog, f, name, opname):
